@@ -346,6 +346,8 @@ GEN_THEOREMS = {
     "C07": ("CoreDhcp.Props.GenAlloc4", ["GEN_a4_allocate_eq", "GEN_a4_toOffset_eq"]),
 }
 GEN_THEOREMS_MORE = [
+    # server/sendEthernet.go regenerated (unit ethernet)
+    ("C15", "CoreDhcp.Props.GenEthernet", ['GEN_eth_layers', 'GEN_eth_sendEthernet_eq', 'C15_frame', 'C15_frame_fields', 'C15_frame_none_iff', 'GEN_eth_frame', 'GEN_eth_payload_probes', 'GEN_eth_payload_not_toBytes']),
     # server.Start, listen4/6 and Close regenerated (unit start)
     ("C13", "CoreDhcp.Props.GenStart", ['GEN_start_start_eq', 'GEN_start_loop6_acc', 'GEN_start_loop4_acc', 'GEN_start_close_eq', 'GEN_start_closeLoop_acc', 'START_every_section_listens', 'START_whole_chain', 'START_cleanup', 'START_failed_listen_leaks_socket', 'START_load_error_opens_nothing']),
     ("C15", "CoreDhcp.Props.GenStart", ['GEN_start_listen4_eq', 'GEN_start_start_eq', 'START_unbound_has_pktinfo']),
